@@ -16,7 +16,7 @@
    open cells between consecutive thresholds.  Evaluating it at every threshold and at the
    midpoint of every cell gives the measure of Sel(i) exactly - no sampling.
    p is passed in half units: h stands for p = h/(2S); thresholds t are t/S = 2t/(2S).   *)
-EXTENDS Integers, Sequences, FiniteSets, TLC, Json
+EXTENDS HuffOps, TLC, Json
 
 CONSTANTS Vectors,   \* set of rate vectors (sequences of positive integers, length >= 1)
           SymEvents, \* TRUE: break ties between equal-rate EVENTS by lowest index only (symmetry
@@ -35,8 +35,6 @@ vars == <<rates, pc, eq, nq, tree, out>>
 
 N == Len(rates)
 
-RECURSIVE SumSeq(_, _)
-SumSeq(s, k) == IF k = 0 THEN 0 ELSE s[k] + SumSeq(s, k - 1)
 SpecSum == SumSeq(rates, N)
 
 \* ---------------------------------------------------------------- Algo: escape rate
@@ -92,41 +90,15 @@ Merge ==
        /\ nq' = (nq \ {h1, h2}) \cup {Len(tree) + 1}
   /\ UNCHANGED <<rates, pc, eq, out>>
 
-\* addProbabilityFromRightSubtreeToLeftSubtree(n, add)
-RECURSIVE AddP(_, _, _)
-AddP(t, k, add) ==
-  LET t1 == [t EXCEPT ![k].prob = @ + add]
-  IN  IF t[k].last THEN t1
-      ELSE LET t2 == AddP(t1, t[k].l, add + t1[t[k].r].prob)
-           IN  AddP(t2, t[k].r, add)
-
-\* moveProbabilitiesFromRightSubtreesOneLevelUp(n)
-RECURSIVE MoveP(_, _)
-MoveP(t, k) ==
-  IF t[k].last THEN [t EXCEPT ![k].prob = @ - rates[t[k].l]]
-  ELSE LET t1 == [t EXCEPT ![k].prob = t[t[k].r].prob]
-       IN  MoveP(MoveP(t1, t[k].r), t[k].l)
-
-\* findHoppingDestination(p), p = h/(2S): "p > node->probability" is h > 2*prob
-RECURSIVE Descend(_, _, _)
-Descend(t, k, h) ==
-  IF t[k].last THEN (IF h > 2 * t[k].prob THEN t[k].l ELSE t[k].r)
-  ELSE IF h > 2 * t[k].prob THEN Descend(t, t[k].l, h) ELSE Descend(t, t[k].r, h)
-\* node = &htree.back()
-AlgoFind(t, h) == Descend(t, Len(t), h)
-
-\* ---------------------------------------------------------------- exact measure
-Thresholds(t) == {t[k].prob : k \in 1..Len(t)}
-Points(t) == (Thresholds(t) \cap 0..SpecSum) \cup {0, SpecSum}
-Cells(t) == {c \in Points(t) \X Points(t) :
-               c[1] < c[2] /\ ~\E x \in Points(t) : c[1] < x /\ x < c[2]}
-RECURSIVE SumLen(_)
-SumLen(C) == IF C = {} THEN 0
-             ELSE LET c == CHOOSE x \in C : TRUE IN (c[2] - c[1]) + SumLen(C \ {c})
-\* numerator (over S) of the length of Sel(i)
-AlgoMeasure(t, i) == SumLen({c \in Cells(t) : AlgoFind(t, c[1] + c[2]) = i})
-\* probes: every threshold (incl. p = 0 and p = 1) and every cell midpoint
-Probes(t) == {2 * x : x \in Points(t)} \cup {c[1] + c[2] : c \in Cells(t)}
+\* the two threshold passes (AddP, MovePR), the descent (FindIn) and the exact measure are in
+\* HuffOps.tla, shared with the history layer HuffHist.tla
+MoveP(t, k) == MovePR(rates, t, k)
+AlgoFind(t, h) == FindIn(t, h)
+Thresholds(t) == ThresholdsOf(t)
+Points(t) == PointsOf(t, SpecSum)
+Cells(t) == CellsOf(t, SpecSum)
+AlgoMeasure(t, i) == MeasureOf(t, SpecSum, i)
+Probes(t) == ProbesOf(t, SpecSum)
 
 \* root = &htree[htree.size() - 1]; both passes; the observable part of the result
 Finish ==
